@@ -213,6 +213,18 @@ Proof.
     exfalso. apply Hne. now apply xleb_antisym.
 Qed.
 
+Lemma first_max_unique t k k' : first_max t k -> first_max t k' -> k = k'.
+Proof.
+  intros (Hk & Hle & Hlt) (Hk' & Hle' & Hlt').
+  destruct (Z.lt_trichotomy k k') as [H|[H|H]]; auto.
+  - specialize (Hlt' k ltac:(lia)). specialize (Hle k' ltac:(lia)).
+    apply xltb_true_neq in Hlt' as Hne. pose proof (xltb_true_leb _ _ Hlt').
+    exfalso. apply Hne. now apply xleb_antisym.
+  - specialize (Hlt k' ltac:(lia)). specialize (Hle' k ltac:(lia)).
+    apply xltb_true_neq in Hlt as Hne. pose proof (xltb_true_leb _ _ Hlt).
+    exfalso. apply Hne. now apply xleb_antisym.
+Qed.
+
 (* ---- sorting, rank, median ------------------------------------------- *)
 Definition xle (a b : xv) : Prop := xleb a b = true.
 
